@@ -310,6 +310,11 @@ CORPUS = [
     "inv 3 5 2/1 -1/1 0/1 -1/1 2/1 -1/1 0/1 -1/1 2/1",
     "xfer 2 2 3 0 0 0 0 0 2 2 3 0 0 0 0 0 2 1/1 2/1 2 3/1 4/1",
     "gxfer 3 2 4 0 2 3 4 4 0 1 1 0 4 1/1 2/1 3/1 4/1 2 3 3 0 2 3 3 0 2 1 3 5/1 6/1 7/1 2 1/1 2/1 3 1/1 2/1 3/1",
+    # convert()/clone() twins: P = (1,1)^T, R = P^T = (1 1), T = (1/2 1/2) = (P^T P)^-1 P^T.  A converted object whose
+    # truncation was filled from the restriction gives trunc(prol(x)) = 2x
+    "xfer 2 1 3 0 1 2 2 0 0 2 1/1 1/1 1 2 2 0 2 2 0 1 2 1/2 1/2 1 3/1 2 1/1 -2/1",
+    "gxfer 2 1 3 0 1 2 2 0 0 2 1/1 1/1 1 2 2 0 2 2 0 1 2 1/2 1/2 1 3/1 2 1/1 -2/1",
+    "gxfer 3 2 4 0 1 3 4 4 0 0 1 1 4 1/1 1/2 1/2 1/1 2 3 3 0 2 4 4 0 1 1 2 4 3/4 1/2 1/2 3/4 2 1/1 -1/1 3 2/1 0/1 1/1",
     # the ghost-only halves and prol_cancel on a process that is child and parent: must assert, not compute
     "gforbid 0 3 2 4 0 2 3 4 4 0 1 1 0 4 1/1 2/1 3/1 4/1 2 3 3 0 2 3 3 0 2 1 3 5/1 6/1 7/1 2 1/1 2/1 3 1/1 2/1 3/1",
     "gforbid 1 3 2 4 0 2 3 4 4 0 1 1 0 4 1/1 2/1 3/1 4/1 2 3 3 0 2 3 3 0 2 1 3 5/1 6/1 7/1 2 1/1 2/1 3 1/1 2/1 3/1",
@@ -367,7 +372,9 @@ def perm_state_cfgs():
     out = []
     for b in bases:
         states = [(0, 0)]
-        for st in range(1, 8):
+        # every strategy on the two quadrilateral bases; the triangle / tetrahedron bases share the seven strategies
+        strategies = range(1, 8) if b["shape"] == "quad" else ((1, 3, 4, 6) if b["shape"] == "tria" else (2, 5, 7))
+        for st in strategies:
             states += [(st, 0), (0, st), (st, st)]
             if b["space"] == "cr":
                 states.append((st, st % 7 + 1))
@@ -576,6 +583,48 @@ def check_global(o, p, pt, t, x, y, what_exact):
     return None
 
 
+TWIN_TAGS = [("OR", "the transfer object"), ("CV", "the converted (u64 -> u32) LAFEM::Transfer"),
+             ("CB", "the back-converted (u32 -> u64) LAFEM::Transfer"), ("CS", "the shallow clone"), ("CW", "the weak clone"),
+             ("CD", "the deep clone"), ("CC", "the default clone"), ("GUV", "the converted un-muxed Global::Transfer"),
+             ("GMV", "the converted muxed Global::Transfer"), ("GUC", "the cloned un-muxed Global::Transfer"),
+             ("GMW", "the weakly cloned muxed Global::Transfer"), ("GMD", "the deeply cloned muxed Global::Transfer")]
+
+
+def csr_sig(vals):
+    return sum(((k + 1) * v for k, v in enumerate(vals)), F(0))
+
+
+def check_twins(o, p, pt, t, x, y, sig_p=None, sig_r=None, sig_t=None):
+    """sections after TW: convert() / clone() must copy prolongation from prolongation, restriction from restriction,
+    truncation from truncation: every twin computes P x, P^T y, T y, T P x and shows the same three matrices"""
+    o.expect("TW")
+    px = matvec(p, x)
+    exp = [px, matvec(pt, y), matvec(t, y), matvec(t, px)]
+    names = ["prol is not P x", "rest is not P^T y (filled from the wrong source matrix?)",
+             "trunc is not T y (filled from the wrong source matrix?)", "trunc(prol(x)) is not T P x"]
+    first = None
+    for tag, who in TWIN_TAGS:
+        o.expect(tag)
+        for k in range(4):
+            if o.qlist() != exp[k]:
+                return "%s: %s" % (who, names[k])
+        o.expect("M")
+        sigs = []
+        for _ in range(3):
+            sigs.append((o.nat(), o.nat(), o.nat(), o.q()))
+        if first is None:
+            first = sigs
+            nf, nc = len(y), len(x)
+            if [s_[:2] for s_ in sigs] != [(nf, nc), (nc, nf), (nc, nf)]:
+                return "matrix getters show wrong dimensions"
+            for k, ref in enumerate((sig_p, sig_r, sig_t)):
+                if ref is not None and sigs[k][2:] != ref:
+                    return "matrix getter %d of the transfer object does not show the stored matrix" % k
+        elif sigs != first:
+            return "%s: the matrix getters show other matrices than the original object" % who
+    return None
+
+
 def oracle(case, out):
     try:
         return _oracle(case, out)
@@ -641,7 +690,8 @@ def _oracle(case, out):
         o.expect("XT")
         if o.qlist() != matvec(t, y):
             return "Transfer::trunc is not T y"
-        return None
+        return check_twins(o, p, transpose(p, pr, pc), t, x, y, (len(pva), csr_sig(pva)), (len(rva), csr_sig(rva)),
+                           (len(tva), csr_sig(tva)))
     if op == "cert":
         # certificates computed by the Lean driver on the real ingredients: hypotheses of C18.prolongation_exact_certified
         # (NEST, MAPS) and C18.truncation_prolongation_identity (CONS, INT, MAPS)
@@ -706,7 +756,10 @@ def _oracle(case, out):
         t = csr_dense(tr, tc, trp, tci, tva)
         o = Tk(out)
         o.expect("G")
-        return check_global(o, p, transpose(p, pr, pc), t, x, y, False)
+        e = check_global(o, p, transpose(p, pr, pc), t, x, y, False)
+        if e:
+            return e
+        return check_twins(o, p, transpose(p, pr, pc), t, x, y, (len(pva), csr_sig(pva)), None, (len(tva), csr_sig(tva)))
     if op in ("fe", "feo"):
         cfg = c.config()
         suff, exact = rule_info(cfg["shape"], cfg["space"], cfg["cub"], bool(cfg["offsets"]))
@@ -741,6 +794,9 @@ def _oracle(case, out):
             o.expect("XT"); xt = o.qlist()
             o.expect("G")
             e = check_global(o, pd, r, td, x, y, exact == "exact")
+            if e:
+                return e
+            e = check_twins(o, pd, r, td, x, y, (len(pcsr[4]), csr_sig(pcsr[4])), (len(rcsr[4]), csr_sig(rcsr[4])), None)
             if e:
                 return e
             if len(pd) != nf or any(len(row) != nc for row in pd):
@@ -920,7 +976,7 @@ def main(argv):
                 "certificates", [case], vlib.driver_cmd(PROP), None, oracle=oracle, canon=canon)], t0)
         feo = [case] if case.startswith("feo ") else []
     else:
-        n_alg, n_fe = (1500, 20) if args.tier == "quick" else (20000, 250)
+        n_alg, n_fe = (1500, 12) if args.tier == "quick" else (20000, 250)
         alg = list(CORPUS)
         for _ in range(n_alg):
             k = rng.random()
